@@ -274,6 +274,22 @@ def get_digits (base nd0 : Nat) (u : Mpf.F) : List Nat × Int :=
   let ds := Radix.digitsOf base sc.1                                             -- mpn_get_str
   finish base nd ds ((ds.length : Int) - sc.2)                                   -- :216 / :250, :253-291
 
+/-- the conditions under which `MpirProofs` proves "within one unit of the last requested digit" for `get_digits`
+    (theorem get_digits_accuracy): n_limbs_needed leaves two guard limbs beyond the digits worked to, at least
+    three more digits are developed than delivered, the scaling exponent is below 2^59, and in the division branch
+    the power's ignored limbs do not exceed n_less_limbs_needed.  They depend on the binary64 computations of
+    get_str.c:180/189/226; the driver evaluates them on every mpf_get_str13 line (marker `!adequacy`). -/
+def adequate (base nd0 : Nat) (u : Mpf.F) : Bool :=
+  let nd := effDigits base u.prec nd0
+  let nln := nLimbsNeeded base nd
+  let sc := scaledInt base nln u
+  decide (base ^ nd * 2 ^ 64 ≤ B ^ (nln - 1)) &&
+  decide (nd + 3 ≤ (Radix.digitsOf base sc.1).length) &&
+  decide (sc.2.natAbs + 1 ≤ 2 ^ 59) &&
+  (decide (u.exp ≤ (nln : Int)) ||
+   decide ((powHigh0 base (Radix.mulTrunc (64 * (u.exp - (nln : Int)).toNat) (Radix.cpbeBits base)) nln).2 ≤
+     (u.exp - (nln : Int)).toNat))
+
 /-- the returned string and exponent; `base` in 2..62 or -36..-2 -/
 def get_str (base : Int) (nd0 : Nat) (u : Mpf.F) : List Nat × Int :=
   let r := get_digits base.natAbs nd0 u
